@@ -1,8 +1,28 @@
 package tempfile
 
-// VfSeed makes the pseudo-random suffixes reproducible (harness only).
+import (
+	"reflect"
+	"unsafe"
+)
+
+// VfSeed makes the pseudo-random suffixes reproducible when the generator
+// still has the shape this harness knows (a uint32 state field "idum"); with
+// another generator it does nothing - the harness does not depend on the
+// names (the scheduler normalises the random part of file names).
 func (c *Creator) VfSeed(s uint32) {
-	c.mu.Lock()
-	c.idum = s
-	c.mu.Unlock()
+	v := reflect.ValueOf(c).Elem()
+	f := v.FieldByName("idum")
+	if !f.IsValid() || f.Kind() != reflect.Uint32 {
+		return
+	}
+	if mu := v.FieldByName("mu"); mu.IsValid() {
+		if l, ok := reflect.NewAt(mu.Type(), unsafe.Pointer(mu.UnsafeAddr())).Interface().(interface {
+			Lock()
+			Unlock()
+		}); ok {
+			l.Lock()
+			defer l.Unlock()
+		}
+	}
+	reflect.NewAt(f.Type(), unsafe.Pointer(f.UnsafeAddr())).Elem().SetUint(uint64(s))
 }
